@@ -1821,7 +1821,7 @@ class C14Run(OnionRun):
 # C17
 # ---------------------------------------------------------------------------
 
-MUST_FAIL = ('config', 'bind', 'reject', 'uploads-failed', 'disconnect-before-reply')
+MUST_FAIL = ('config', 'bind', 'reject', 'uploads-failed', 'disconnect-before-reply', 'disconnect-during-wait')
 
 
 class C17Run(OnionRun):
@@ -1967,6 +1967,12 @@ class C17Run(OnionRun):
             self.fail('C17.listen-pending-on-lost-connection',
                       'listen() on an endpoint whose control connection was lost neither failed nor succeeded (open local listeners: %d)' % (
                           len(sim.reactor.ports),))
+        if second.ok and self.step_name == 'disconnect-during-wait' and self.c['kind'] == 'fs':
+            # Tor had accepted the SETCONF, so the service is configured there and in the view; listen() on an
+            # already configured directory only binds and returns (the re-listen case), which is not prescribed here
+            sim.probe('relisten-on-configured-directory')
+            second.value.stopListening()
+            return
         if second.ok:
             self.fail('C17.success-on-lost-connection', 'listen() succeeded although the control connection is gone')
         if sim.reactor.ports:
